@@ -67,7 +67,7 @@ let rnd side f =
   | `Model ->
       let s = parse_style (List.nth f 0) in
       let alt, fl = parse_flags (List.nth f 1) in
-      Printf.sprintf "fmt=%s rfmt=%s zfmt=%s render=%s write=%s reset=%s wreset=%s"
+      Printf.sprintf "fmt=%s rfmt=%s zfmt=%s render=%s write=%s reset=%s wreset=%s short=%s"
         (hx (unopt (rn_display alt fl s)))
         (hx (unopt (rn_display_render alt fl s)))
         (hx (unopt (rn_display_reset_of alt fl s)))
@@ -75,6 +75,8 @@ let rnd side f =
         (frags (unopt (rn_write_to s)))
         (hx (rn_render_reset s))
         (frags (rn_write_reset_to s))
+        (* through a writer that takes at most 3 bytes per call: write_to uses write_all, so everything arrives *)
+        (hx (List.concat (unopt (rn_write_to s)) @ List.concat (rn_write_reset_to s)))
 
 let rnc side f =
   match side with
